@@ -73,6 +73,12 @@ class Timeout(BaseException):
     pass
 
 
+FAULT_COUNTERS = {
+    "inj:*": "corruption/",
+    "probe:eof_inside_pack": "stream EOF inside the pack",
+}
+
+
 def budget(tier):
     return 1440 if tier == "quick" else 60000
 
@@ -504,6 +510,10 @@ def judge_ingest(ctx, bench, path, label, data, cuts, valid, expected, cls,
     gc.collect()
     ctx.case([hashlib.sha1(data).hexdigest(), path, bench.kind,
               len(cuts) > 0], data != valid)
+    if data != valid:
+        ctx.stat("inj:stream/" + cls)
+    if cuts:
+        ctx.stat("inj:read-chunking")
     if cls == "cycle":
         ctx.stat("probe:delta_cycle_tried")
     if outcome == "timeout":
@@ -824,6 +834,8 @@ def run_stored(plan, ctx, root):
             signal.setitimer(signal.ITIMER_REAL, 0)
             signal.signal(signal.SIGALRM, old)
         ctx.case([victim, hashlib.sha1(data).hexdigest()], data != orig)
+        if data != orig:
+            ctx.stat(f"inj:stored-{victim}/{fam}")
         if victim == "index" and data[-20:] == b"\0" * 20:
             # an all-zero trailer is index.skipHash: such a file carries no
             # integrity check at all (git accepts it the same way)
